@@ -490,7 +490,7 @@ def _update_zo_file(
     log_message: str,
     record_hash: bool = True,
 ) -> None:
-    zlines = zo_path.read_text().split("\n")
+    zlines = c.read_text_verbatim(zo_path).split("\n")
     for note in notes_to_update:
         assert note.zid is not None
         assert note.line_no is not None
